@@ -9,6 +9,7 @@ mod cluster;
 mod metarig;
 mod migrig;
 mod compressrig;
+mod ctlrig;
 mod sched;
 mod simnet;
 mod slotrig;
@@ -216,6 +217,15 @@ fn cmd_migration_runs(m: &HashMap<String, String>) -> i32 {
     0
 }
 
+fn cmd_ctl_runs(m: &HashMap<String, String>) -> i32 {
+    let out = m.get("out").expect("--out");
+    let f = std::fs::File::create(out).expect("create");
+    let mut w = BufWriter::new(f);
+    ctlrig::run_many(&mut w, geti(m, "count", 2u64), geti(m, "seed", 1u64));
+    w.flush().ok();
+    0
+}
+
 fn main() {
     let args: Vec<String> = std::env::args().collect();
     if args.len() < 2 {
@@ -238,6 +248,7 @@ fn main() {
         "compress-cases" => cmd_compress_cases(&m),
         "meta-cases" => cmd_meta_cases(&m),
         "migration-runs" => cmd_migration_runs(&m),
+        "ctl-runs" => cmd_ctl_runs(&m),
         other => {
             eprintln!("unknown subcommand {}", other);
             2
